@@ -76,6 +76,19 @@ def encoder_case(name, cfg, slots='own', sid=0, role=1, esis=None):
     c.meta = {'cfg': cfg, 'sid': sid, 'slots': slots}
     return c
 
+def field_twin_prefix(cfg, sid=7):
+    """a complete little encoder session of the OTHER field size of the GF(2^m) codec with the same (k, r), run just before the session of
+    interest: whatever the codec remembers between sessions under a key that forgets m (a generator matrix, a table) is then wrong"""
+    if cfg.kind not in ('rs2m4', 'rs2m8') or cfg.n > 15:
+        return []
+    other = Cfg('rs2m8' if cfg.kind == 'rs2m4' else 'rs2m4', cfg.k, cfg.r)
+    return ['new %d 2 1' % sid, other.params_line(sid), 'payload %d id' % sid, 'build %d %d own' % (sid, other.k), 'release %d' % sid]
+
+def with_prefix(case, prefix):
+    """insert `prefix` lines right after the 'case' line"""
+    case.lines = [case.lines[0]] + list(prefix) + case.lines[1:]
+    return case
+
 def small_configs(kinds, nmax, ldpc_seeds=(1, 7), N1s=(3, 4)):
     out = []
     for kind in kinds:
@@ -132,6 +145,29 @@ def dense_column_configs(rng, count):
         out.append((cfg, reps + srcs[:rng.randint(1, k)]))
     return out
 
+def star_configs(rng, count):
+    """LDPC sessions in which iterative decoding is stuck and ONE more symbol x unlocks at least 5 equations at once: x is unknown (not in
+    the peeling closure of what was received) and belongs to >= 5 equations that each have exactly one other unknown.  Submitting x last then
+    puts 5..10 entries in the per-call list of degree-one equations, each rebuilding a different symbol, with cascades.  Found by rejection
+    sampling around the decoding threshold with the independent Python transcription of RFC 5170 and of the peeling closure (N1 >= 5)."""
+    from props import pyref
+    out = []
+    tries = 0
+    while len(out) < count and tries < count * 1500:
+        tries += 1
+        k = rng.randint(20, 70); r = rng.randint(k // 2, k); N1 = rng.choice([5, 6, 7, 8, 10])
+        if N1 > r: continue
+        seed = rng.randint(1, 2 ** 31 - 2)
+        H, _ = pyref.rfc5170(k, k + r, N1, seed); n = k + r
+        recv = set(rng.sample(range(n), min(n, int(k * rng.uniform(0.9, 1.15)))))
+        K = pyref.closure(H, recv)
+        x = next((e for e in range(n) if e not in K and sum(1 for row in H if e in row and len(row - K) == 2) >= 5), None)
+        if x is None: continue
+        cfg = Cfg('ldpc', k, r, length=rng.choice([1, 4, 9]), N1=N1, seed=seed, payload='rand', pseed=len(out))
+        rest = sorted(recv); rng.shuffle(rest)
+        out.append((cfg, rest + [x]))
+    return out
+
 def dense_column_cases(rng, name, count, trace=False, cb_choices=('none', 'buf', 'null', 'mix'), apis=('stream', 'stream', 'stream', 'table')):
     return [decoder_case('%s%d' % (name, j), cfg, order, api=apis[j % len(apis)], finish=True, cb=rng.choice(cb_choices), trace=trace)
             for j, (cfg, order) in enumerate(dense_column_configs(rng, count))]
@@ -155,4 +191,46 @@ def lowrate_ldpc_cases(rng, name, count, trace=False):
         else: order = [cfg.n - 1] + random_order(rng, rng.sample(range(cfg.n - 1), rng.randint(max(0, k - 1), cfg.n - 1)), 0.1)
         cases.append(decoder_case('%s%d' % (name, j), cfg, order, api='stream' if j % 3 else 'table', finish=(j % 5 != 0),
                                   cb=['none', 'buf', 'null', 'mix'][(j // 2) % 4], trace=trace))
+    return cases
+
+
+def after_finish_cases(rng, name, count, kinds=('ldpc', 'ldpc', 'ldpc', '2d', 'rs8', 'rs2m4')):
+    """histories that go on after of_finish_decoding: a receive set around the decoding threshold, finish (which succeeds or fails, by
+    iterative decoding, by Gaussian elimination, or for lack of equations), then a second finish and/or the late symbols - the rest of the block,
+    by either API - with completion and the source table queried in between, then finish again"""
+    cases = []
+    for j in range(count):
+        kind = kinds[j % len(kinds)]
+        if kind == 'ldpc':
+            k = rng.randint(3, 40); r = rng.randint(3, max(3, k)); N1 = 3 if r < 5 else rng.choice([3, 4, 5])
+            cfg = Cfg(kind, k, r, N1=N1, seed=rng.randint(1, 2 ** 31 - 2), payload='rand', pseed=j, length=rng.choice([1, 4, 9]))
+            want = min(cfg.n - 1, max(1, k + rng.randint(-2, 3)))
+        elif kind == '2d':
+            d, l = rng.choice([(2, 2), (2, 3), (3, 3), (2, 4), (4, 4), (3, 4), (1, 5)]); cfg = Cfg(kind, d * l, d + l, payload='rand', pseed=j, length=4)
+            want = min(cfg.n - 1, max(1, cfg.k + rng.randint(-3, 2)))
+        else:
+            n = rng.randint(4, 15); k = rng.randint(2, n - 1); cfg = Cfg(kind, k, n - k, payload='rand', pseed=j)
+            want = rng.choice([k - 1, k, k + 1, n - 1]); want = max(0, min(n - 1, want))
+        first = rng.sample(range(cfg.n), want)
+        late = [e for e in range(cfg.n) if e not in first]; rng.shuffle(late)
+        sid = 0
+        b = ['new 0 %d %d' % (cfg.codec, rng.choice([2, 2, 3])), cfg.params_line(0)]
+        cb = rng.choice(['none', 'none', 'buf', 'null', 'mix'])
+        if cb != 'none': b.append('cb 0 %s' % cb)
+        b += [cfg.payload_line(0), 'cwdump 0']
+        if rng.random() < 0.7: b += ['recv 0 %d' % e for e in first]
+        else: b += ['avail 0 %s' % (','.join(str(e) for e in sorted(first)) or '-')]
+        b += ['complete 0', 'finish 0', 'complete 0', 'sources 0']
+        mode = j % 4
+        if mode in (0, 1): b += ['finish 0', 'complete 0', 'sources 0']
+        if mode in (1, 2, 3):
+            cut = rng.randint(1, len(late))
+            b += ['recv 0 %d' % e for e in late[:cut]] + ['complete 0', 'sources 0', 'finish 0', 'complete 0', 'sources 0']
+            if mode == 3:
+                b += ['recv 0 %d' % e for e in late[cut:]] + ['recv 0 %d' % rng.choice(first or [0]), 'complete 0', 'sources 0', 'finish 0', 'complete 0']
+        b.append('release 0')
+        c = corr.mk('%s%d' % (name, j), b)
+        order = list(first) + (late if mode == 3 else late[:cut] if mode in (1, 2) else [])
+        c.meta = {'cfg': cfg, 'order': order, 'api': 'stream', 'finish': True, 'cb': cb, 'sid': 0, 'trace': False}
+        cases.append(c)
     return cases
